@@ -40,3 +40,23 @@ def nextafter_pool(xs):
     for x in xs:
         out += [math.nextafter(x, -math.inf), x, math.nextafter(x, math.inf)]
     return out
+
+
+_STICKY = [None, None]
+
+
+def mk_problem_sticky(nobjs, maxdirs=None, nconstrs=0, nvars=1):
+    """Like mk_problem, but when the previous call had the same shape the SAME Problem object is returned with its
+    directions re-declared in place (problem.directions[i] = ...), with no other problem created in between.  Library
+    components that share default-argument comparator instances (Archive(), nondominated(), nondominated_sort) then
+    see one problem object whose directions change, which exposes stale per-problem caches."""
+    key = (nobjs, nconstrs, nvars)
+    if _STICKY[0] == key:
+        p = _STICKY[1]
+        for i in range(nobjs):
+            mx = bool(maxdirs[i]) if maxdirs is not None else False
+            p.directions[i] = Direction.MAXIMIZE if mx else Direction.MINIMIZE
+        return p
+    p = mk_problem(nobjs, maxdirs, nconstrs, nvars)
+    _STICKY[0], _STICKY[1] = key, p
+    return p
